@@ -153,8 +153,9 @@ def gen_table(rng, n_enums, big=False):
         spec["header"] = rng.choice(["Title", "A header that is much longer than the table itself, really"])
     if rng.random() < 0.3:
         spec["footer"] = rng.choice(["", "custom footer"])
-    if rng.random() < 0.2:
-        spec["titles"] = {"name": rng.choice(["Full\nName", "N", ["Full", "Name"], ["Nm"]])}
+    if rng.random() < 0.3:
+        # (title items need not be strings: numbers and keywords are shown in their own colours)
+        spec["titles"] = {"name": rng.choice(["Full\nName", "N", ["Full", "Name"], ["Nm"], ["Year", 2024], ["N", None, True]])}
     if rng.random() < 0.2:
         spec["limits"] = [rng.randint(0, 2), rng.randint(0, 2)]
         if rng.random() < 0.25:
